@@ -96,6 +96,18 @@ def resim_check(ctx, run, rows):
         elif r['outs'] != [w for w in mc.report_tokens(rep, outputs) if w is not None]:
             ctx.violate('property', 'independence:row-outputs-of-other-inputs', 'the output values of a row are not those of its own sampled inputs '
                         '(re-simulated through the client)', inp=_inp(run, row=r['line']), expected=mc.report_tokens(rep, outputs), observed=r['outs'])
+    if run.program == 'TOY' and any(t['trace'] for t in run.tasks):
+        # which iterations the simulator accepts is decided independently of how work_package ended: every accepted draw needs its row
+        names = [n for n, w_, _ in mc.parse_settings(run.settings, run.base)[0] if mc.dist_of(w_)]
+        draws = [[(n, v) for n, (_, v) in zip(names, mc.task_entries(t))] for t in run.tasks if t['trace']]
+        verdicts = mc.resimulate(ctx, [(run.program, run.base, d) for d in draws])
+        accepted = [tuple(v for _, v in d) for d, rep in zip(draws, verdicts) if rep is not None]
+        have = [tuple(v for _, v in r['ins']) for r in rows]
+        lost = [a for a in accepted if a not in have]
+        if lost:
+            ctx.violate('property', 'rowcount:simulated-iteration-without-row',
+                        f'{len(lost)} of the {len(accepted)} iterations whose sampled inputs the simulator accepts left no row ({len(rows)} rows; '
+                        f'work packages ended: {sorted({t["status"][:60] for t in run.tasks})})', inp=_inp(run), expected=len(accepted), observed=len(rows))
     ctx.count('rows-resimulated', evaluations=len(rows), nontrivial_keys=[tuple(v for _, v in r['ins']) for r in rows])
 
 
@@ -305,7 +317,7 @@ def correspondence(ctx, proofs_ok=True):
             lock_model_check(ctx, run, rows, ok, bools)
         if run.mode == 'stalelock':
             stale_lock_check(ctx, run, rows, ok, bools)
-        if run.program == 'GEOPHIRES' and rows:
+        if run.program in ('GEOPHIRES', 'TOY'):
             resim_check(ctx, run, rows)
     failing = fw.kernel_bools(ctx, 'c13', REQ, [b for b, _ in bools], open_scope='string_scope')
     for i in failing:
@@ -370,6 +382,8 @@ def replay(ctx, data):
                      base=inp.get('base'), settings2=inp['settings'] if first else None)
     rows, ok = analyse(ctx, run, bools)
     moments_check(ctx, run, rows)
+    if run.program in ('GEOPHIRES', 'TOY'):
+        resim_check(ctx, run, rows)
     for i in fw.kernel_bools(ctx, 'c13r', REQ, [b for b, _ in bools], open_scope='string_scope'):
         bools[i][1]()
     print(f'run: W={run.W} mode={run.mode} tasks={len(run.tasks)} successful={len(ok)} rows={len(rows)} '
